@@ -97,6 +97,14 @@ CLAIMED.update({
             TB + " Drop/clone accounting is observed (ledger: live elements = sum of sizes after every operation, no double drop, nothing live at the end), not proved; "
             "stated for element types that occupy memory; macro arms excluded from the theorem (covered by correspondence).", "DESIGN §7 C01"),
 })
+CLAIMED.update({
+    'C02': ("Rocq theorems over a free-monad fault model (snapshots at every caller-code call) + exhaustive fault enumeration against the crate",
+            "PARTIAL. Proved: for resize (repaired code, every k, every shape pair), clear and the class of element-by-element in-place updates, the state a catch_unwind finds behind the receiver is coherent "
+            "whichever call to caller code panics; the pre-repair resize is refuted by a witness (finding F1). Enumerated against the crate: every operation family that calls caller code x 8 shapes x both orders x "
+            "every k (Default/Clone/Drop/PartialEq/Display/Debug/operators/closures/accessors, rayon included): after the caught panic every surviving matrix is probed (coherence, ledger, double drops, "
+            "agreement with the fault model for resize / in-place updates / clear), then used and dropped.",
+            TB + " std's unwinding behaviour, rayon's panic propagation and the 'assembled after the last caller call' classification of the consuming operations are observed, not proved.", "DESIGN §7 C02"),
+})
 NOT_APPLICABLE = {}
-for _p in ['C02', 'C03', 'C20']:
+for _p in ['C03', 'C20']:
     NOT_APPLICABLE[_p] = "not claimed yet: the check for this property is still being built in this round (the technique applies; see DESIGN.md §7)"
